@@ -74,7 +74,7 @@ def main():
         meta["demo_patched_output"] = out[-600:]
         meta["ran"].append("patched: python demo.py -> exit %d" % rc)
         if tests:
-            rc, out, dt = sh([PY, "-m", "pytest", "-q", "-rf", "-p", "no:cacheprovider", "-n", "6", "Tests"], cwd=wt, env=env)
+            rc, out, dt = sh([PY, "-m", "pytest", "-q", "-rf", "-p", "no:cacheprovider", "-n", "6"], cwd=wt, env=env)
             failed = [l.strip() for l in out.splitlines() if l.startswith("FAILED ")]
             if failed:  # retry the failing tests alone: under heavy machine load some tests are flaky
                 ids = [l.split()[1] for l in failed]
